@@ -6,14 +6,11 @@ open Yaclib.FiberSync
 
 structure Inv (k : Bool) (s : State) : Prop where
   hk : s.timed = k
-  /-- `_occupied == false` ⇒ nobody holds the lock — except for what D6 let in -/
-  occ_free : s.occupied = false → s.holders.length ≤ s.barge
-  len : s.holders.length ≤ 1 + s.barge
+  /-- `_occupied == false` ⇒ nobody holds the lock -/
+  occ_free : s.occupied = false → s.holders = []
+  len : s.holders.length ≤ 1
   occ_held : s.occupied = true → s.holders ≠ []
-  barge_timed : s.timed = false → s.barge = 0
-  /-- the repaired `TimedWaitHelper` never barges -/
-  barge_fixed : s.fixed = true → s.barge = 0
-  /-- fibers in transit are runnable: they re-evaluate the lock condition (or, timed, take the lock) next -/
+  /-- fibers in transit are runnable: they re-evaluate the lock condition next -/
   transit_pc : ∀ g, g ∈ s.transit → (s.pc g).woken = true
   /-- no lost wake-up: a free mutex with parked lockers has a notified locker on its way -/
   free_transit : s.occupied = false → s.mq ≠ [] → s.transit ≠ []
@@ -25,15 +22,12 @@ structure Inv (k : Bool) (s : State) : Prop where
   dl_cv : ∀ g r d, s.pc g = .cvTimed r d → r ≤ d
   /-- only a `timed_mutex` has fibers inside `TimedWaitHelper` -/
   tlf_timed : ∀ g r d, s.pc g = .tlfParked r d → s.timed = true
-  tlfw_timed : ∀ g, s.pc g = .tlfWoken → s.timed = true
   tlfl_timed : ∀ g r, s.pc g = .tlfLocking r → s.timed = true
-  fixed_no_woken : s.fixed = true → ∀ g, s.pc g ≠ .tlfWoken
 
-theorem inv_init (k fx : Bool) (n : Nat) : Inv k (init k fx n) := by
+theorem inv_init (k : Bool) (n : Nat) : Inv k (init k n) := by
   constructor <;> (simp only [init]) <;> grind [Pc.woken, Pc.inMq, Pc.inCq]
 
 @[simp] theorem woken_locking (k : Kont) : (Pc.locking k).woken = true := rfl
-@[simp] theorem woken_tlfWoken : Pc.tlfWoken.woken = true := rfl
 @[simp] theorem woken_tlfLocking (r : Nat) : (Pc.tlfLocking r).woken = true := rfl
 @[simp] theorem woken_idle : Pc.idle.woken = false := rfl
 @[simp] theorem inMq_lockParked (k : Kont) : (Pc.lockParked k).inMq = true := rfl
@@ -41,22 +35,19 @@ theorem inv_init (k fx : Bool) (n : Nat) : Inv k (init k fx n) := by
 @[simp] theorem inCq_cvParked : Pc.cvParked.inCq = true := rfl
 @[simp] theorem inCq_cvTimed (r d : Nat) : (Pc.cvTimed r d).inCq = true := rfl
 
-theorem woken_wake {b : Bool} {p : Pc} (h : p.inMq = true) : (wake b p).woken = true := by
-  cases p <;> cases b <;> simp_all [Pc.inMq, wake, Pc.woken]
-theorem wake_not_inMq {b : Bool} {p : Pc} (h : p.inMq = true) : (wake b p).inMq = false := by
-  cases p <;> cases b <;> simp_all [Pc.inMq, wake]
-theorem wake_not_inCq {b : Bool} {p : Pc} (h : p.inMq = true) : (wake b p).inCq = false := by
-  cases p <;> cases b <;> simp_all [Pc.inMq, wake, Pc.inCq]
-theorem wake_ne_tlfParked {b : Bool} {p : Pc} (h : p.inMq = true) (r d : Nat) : wake b p ≠ .tlfParked r d := by
-  cases p <;> cases b <;> simp_all [Pc.inMq, wake]
-theorem wake_ne_cvTimed {b : Bool} {p : Pc} (h : p.inMq = true) (r d : Nat) : wake b p ≠ .cvTimed r d := by
-  cases p <;> cases b <;> simp_all [Pc.inMq, wake]
-theorem wake_tlfWoken {b : Bool} {p : Pc} (h : wake b p = .tlfWoken) :
-    ((∃ r d, p = .tlfParked r d) ∧ b = false) ∨ p = .tlfWoken := by
-  cases p <;> cases b <;> simp_all [wake]
-theorem wake_tlfLocking {b : Bool} {p : Pc} {r : Nat} (h : wake b p = .tlfLocking r) :
+theorem woken_wake {p : Pc} (h : p.inMq = true) : (wake p).woken = true := by
+  cases p <;> simp_all [Pc.inMq, wake, Pc.woken]
+theorem wake_not_inMq {p : Pc} (h : p.inMq = true) : (wake p).inMq = false := by
+  cases p <;> simp_all [Pc.inMq, wake]
+theorem wake_not_inCq {p : Pc} (h : p.inMq = true) : (wake p).inCq = false := by
+  cases p <;> simp_all [Pc.inMq, wake, Pc.inCq]
+theorem wake_ne_tlfParked {p : Pc} (h : p.inMq = true) (r d : Nat) : wake p ≠ .tlfParked r d := by
+  cases p <;> simp_all [Pc.inMq, wake]
+theorem wake_ne_cvTimed {p : Pc} (h : p.inMq = true) (r d : Nat) : wake p ≠ .cvTimed r d := by
+  cases p <;> simp_all [Pc.inMq, wake]
+theorem wake_tlfLocking {p : Pc} {r : Nat} (h : wake p = .tlfLocking r) :
     (∃ d, p = .tlfParked r d) ∨ p = .tlfLocking r := by
-  cases p <;> cases b <;> simp_all [wake]
+  cases p <;> simp_all [wake]
 theorem inMq_not_woken {p : Pc} (h : p.inMq = true) : p.woken = false := by
   cases p <;> simp_all [Pc.inMq, Pc.woken]
 theorem inCq_not_woken {p : Pc} (h : p.inCq = true) : p.woken = false := by
@@ -64,16 +55,20 @@ theorem inCq_not_woken {p : Pc} (h : p.inCq = true) : p.woken = false := by
 theorem inCq_not_inMq {p : Pc} (h : p.inCq = true) : p.inMq = false := by
   cases p <;> simp_all [Pc.inCq, Pc.inMq]
 
+theorem erase_nil_of_len_le_one {l : List Fid} {f : Fid} (h : f ∈ l) (hl : l.length ≤ 1) : l.erase f = [] := by
+  have := List.length_erase_of_mem h
+  exact List.length_eq_zero_iff.mp (by omega)
+
 theorem length_erase_mem {l : List Fid} {f : Fid} (h : f ∈ l) : (l.erase f).length + 1 = l.length := by
   have := List.length_erase_of_mem h
   have : 0 < l.length := List.length_pos_of_mem h
   omega
 
 macro "mx_auto" : tactic =>
-  `(tactic| (constructor <;> (try simp only [acquire, doLockPark, release, notifyM, doTlfPark, doTlfWokenAcq, doTlfTimeout, doCvWait,
+  `(tactic| (constructor <;> (try simp only [acquire, doLockPark, release, notifyM, doTlfPark, doTlfTimeout, doCvWait,
       doCvWaitFor, doCvTimeout, doNotifyOne, doNotifyAll, doTlfRepark, PickOk] at *) <;>
-      grind [upd_apply, mem_rm, rm_ne_nil, woken_wake, wake_not_inMq, wake_not_inCq, wake_ne_tlfParked, wake_ne_cvTimed, wake_tlfWoken, wake_tlfLocking,
-        inMq_not_woken, inCq_not_woken, inCq_not_inMq, length_erase_mem, List.length_append, Pc.woken, Pc.inMq, Pc.inCq]))
+      grind [upd_apply, mem_rm, rm_ne_nil, woken_wake, wake_not_inMq, wake_not_inCq, wake_ne_tlfParked, wake_ne_cvTimed, wake_tlfLocking,
+        inMq_not_woken, inCq_not_woken, inCq_not_inMq, length_erase_mem, erase_nil_of_len_le_one, List.length_append, Pc.woken, Pc.inMq, Pc.inCq]))
 
 /-- splits the preservation proof over several files so that they compile in parallel -/
 def grpOf : Label → Nat
